@@ -2,7 +2,7 @@
     Statements only; each closed by [exact] of a lemma in Proofs/Loop.v / Proofs/LoopProps.v.
     Model: Model/Loop.v ([bench_loop c init hist]: the sampling loop run on a
     history [hist] = the raw samples each round brought back, one per thread). *)
-From DivanV Require Import Base.Res Generated.Consts Model.Timestamp Model.Loop Proofs.Loop Proofs.LoopProps.
+From DivanV Require Import Base.Res Generated.Consts Model.Timestamp Model.Loop Proofs.Loop Proofs.LoopProps Proofs.LoopSb.
 Local Open Scope N_scope.
 
 (** Obligations on the generated constants: the default sample count and the
@@ -79,3 +79,17 @@ Theorem C03_reported_figures : forall c init hist out,
   (forall s, c_size c = Some s -> (0 < rounds_of st)%nat -> s_size st = s).
 Proof. exact reported_figures. Qed.
 Print Assumptions C03_reported_figures.
+
+(** The boolean specification used by the violation search ([c03_sb]) holds of
+    the model's own output whenever the loop returned, for every history with
+    [t >= 1] raw samples per round, in both modes, zero cases included (guard:
+    fewer than 2^32 recorded samples, so that the u32 cast of the count is exact). *)
+Theorem C03_model_sb : forall c init hist out t s,
+  bench_loop c init hist = Ok out -> out_done out = true ->
+  seen_of_outcome t out = Ok s ->
+  let pre := firstn (rounds_of (out_state out)) hist in
+  uniform_p t pre -> (0 < t)%nat ->
+  N.of_nat (length (st_samples (s_store (out_state out)))) < 2 ^ 32 ->
+  c03_sb c t init pre s = true.
+Proof. exact c03_model_sb. Qed.
+Print Assumptions C03_model_sb.
